@@ -110,6 +110,23 @@ def gen_image(rng, n, style):
 
 
 def gen_case(rng):
+    if rng.random() < 0.12:
+        # a user selection of reference bands in which bands WITHOUT a wavelength (quality / mask-like bands) stand among - typically ahead of -
+        # the bands that match the source's wavelengths within the tolerance: positions in the selection and positions among the bands that
+        # carry a wavelength are different things
+        ns = rng.randint(1, 4)
+        wls = rng.sample(WL, ns)
+        src = [dict(ci=4, maskdesc=False, cw=w) for w in wls]
+        ref = [dict(ci=4, maskdesc=False, cw=w * rng.choice([1.0, 0.97, 1.03, 1.06])) for w in wls]
+        rng.shuffle(ref)
+        for _ in range(rng.randint(1, 2)):
+            ref.insert(rng.choice([0, 0, rng.randint(0, len(ref))]), dict(ci=4, maskdesc=False, cw=None))
+        if rng.random() < 0.3:
+            ref.append(dict(ci=4, maskdesc=False, cw=rng.choice(WL) * 3.0))
+        rb = list(range(1, len(ref) + 1))
+        if rng.random() < 0.3:
+            rng.shuffle(rb)
+        return src, ref, (None if rng.random() < 0.6 else list(range(1, ns + 1))), rb, False
     style_s = rng.choice(['wl', 'wl', 'partial', 'none', 'rgb', 'bgr', 'edge'])
     style_r = rng.choice(['wl', 'wl', 'partial', 'none', 'rgb', 'bgr', style_s])
     ns, nr = rng.randint(1, 6), rng.randint(1, 8)
